@@ -154,3 +154,14 @@ pub proof fn lemma_due_now_was_due(cur: Map<String, Vec<DnsRecordIntf>>, m0: Map
     assert(due_and_live(m0[k]@[i].record.rec(), now));
     assert(list_in(m0, x)[i] == m0[k]@[i]);
 }
+// ---- "no host is reported without cause" (refresh_due_hosts) ----
+#[verifier::opaque]
+pub open spec fn host_cause_ok(rd: Set<String>, a0: Map<String, Vec<DnsRecordIntf>>, now: u64) -> bool {
+    forall|r: String| #[trigger] rd.contains(r) ==> due_some(list_in(a0, lower(r@)), now)
+}
+pub proof fn lemma_host_cause_insert(pre: Set<String>, h: String, a0: Map<String, Vec<DnsRecordIntf>>, now: u64)
+    requires host_cause_ok(pre, a0, now), due_some(list_in(a0, lower(h@)), now),
+    ensures host_cause_ok(pre.insert(h), a0, now),
+{
+    reveal(host_cause_ok);
+}
